@@ -39,6 +39,9 @@ SShr(a, r) == IF ZIsPoison(a) \/ r < 0 \/ r >= W THEN ZPoison ELSE ZShr(a, r)
 ToU(a)     == IF ZIsPoison(a) THEN ZPoison ELSE WrapU(a)
 ToS(u)     == IF ZIsPoison(u) THEN ZPoison ELSE Wrap(u)
 UAdd(a, b) == IF ZIsPoison(a) \/ ZIsPoison(b) THEN ZPoison ELSE WrapU(a ++ b)
+(* static_cast<int64_t>( uint64_t(a) +- uint64_t(b) ): modular, never undefined *)
+WAdd(a, b) == IF ZIsPoison(a) \/ ZIsPoison(b) THEN ZPoison ELSE Wrap(a ++ b)
+WSub(a, b) == IF ZIsPoison(a) \/ ZIsPoison(b) THEN ZPoison ELSE Wrap(a -- b)
 UMul(a, b) == IF ZIsPoison(a) \/ ZIsPoison(b) THEN ZPoison ELSE WrapU(a ** b)
 UShl(a, r) == IF ZIsPoison(a) \/ r < 0 \/ r >= W THEN ZPoison ELSE WrapU(ZShl(a, r))
 UShr(a, r) == IF ZIsPoison(a) \/ r < 0 \/ r >= W THEN ZPoison ELSE ZShr(a, r)
